@@ -322,6 +322,20 @@ WRITER_READER_MODULES = {"tflite_writer", "tflite_mapping", "tflite_reader", "re
 
 
 FSYM_KEY = "force-symmetric-const-per-axis-weights-zero-points-zeroed-on-cpu"
+# a CONSTANT listed as subgraph output that no written operator touches is missing from the written tensor table and output list
+# (tflite_writer.serialise_subgraph collects original inputs + operands of the written operators only); repair /verif_patches/C11-60
+CONST_OUT_KEY = "constant-listed-as-subgraph-output-dropped-from-the-written-output-list"
+
+
+def const_outputs(src):
+    """number of entries of the source output list that are constants (tensors with data); classification only"""
+    sg = src["subgraphs"][0]
+    n = 0
+    for i in sg["outputs"]:
+        t = sg["tensors"][i]
+        if 0 < t["buffer"] < len(src["buffers"]) and src["buffers"][t["buffer"]]:
+            n += 1
+    return n
 
 
 def classify(kind, detail, src, opts, out=None):
@@ -332,6 +346,13 @@ def classify(kind, detail, src, opts, out=None):
     is written with all weight zero points 0.  The key is given only for exactly that: option present, only the zero
     points of operand 1 of builtin 3 / 4 differ, the source tensor is constant with more than one zero point, the
     written vector has the same length and is all zero."""
+    if kind == "interface-output-count" and out is not None:
+        # exactly the constant entries are missing: source n, output n - (constant entries)
+        m = re.match(r"source (\d+) output (\d+)$", detail)
+        nc = const_outputs(src)
+        if m and nc and int(m.group(1)) - int(m.group(2)) == nc and len(out["subgraphs"][0]["outputs"]) == int(m.group(2)):
+            return CONST_OUT_KEY
+        return None
     if "--force-symmetric-int-weights" not in opts or kind != "operand-quantisation" or out is None:
         return None
     m = re.match(r"operator \d+ \(builtin (3|4)\) operand 1 \(zero-point\) ([0-9a-f]*)$", detail)
@@ -482,7 +503,16 @@ def main():
         a, sp = w_answers[2 * k], w_answers[2 * k + 1]
         ck.count("wpipe_" + a.split(" ")[0])
         ck.count("wpipe_spec_" + sp.split(" ")[0])
-        if not (a.startswith("same") and sp.startswith("ok")):
+        wkey = None
+        if not sp.startswith("ok"):
+            # the recorded finding: the source lists nc constants as outputs and the Spec's first complaint is that the output list of
+            # subgraph 0 is nc entries short
+            mk = re.match(r"bad \d+ operand-count\|subgraph_0_outputs:_graph_(\d+)_file_(\d+)( |$)", sp)
+            nc = const_outputs(fbwalk.parse(o["src_model"]))
+            if mk and nc and int(mk.group(1)) - int(mk.group(2)) == nc:
+                wkey = CONST_OUT_KEY
+                ck.count("known_" + wkey)
+        if not (a.startswith("same") and sp.startswith("ok")) and wkey is None:
             cls = sp.startswith("ok")
             w_budget[cls] = w_budget.get(cls, 0) + 1
             if w_budget[cls] > 4:
@@ -490,13 +520,13 @@ def main():
         if not a.startswith("same"):
             if not sp.startswith("ok"):
                 ck.violation(f"the written file does not say what the graph handed to the writer says: {sp[:200]} (model vs code: {a[:120]}; "
-                             f"network {o['idx']} {o['profile']} {o['opts']})", dict(replay_of(o), spec=sp, answer=a), found_input=True)
+                             f"network {o['idx']} {o['profile']} {o['opts']})", dict(replay_of(o), spec=sp, answer=a), found_input=True, key=wkey)
             else:
                 ck.violation(f"model of the TFLite writer disagrees with the file written for network {o['idx']} {o['profile']}: {a[:200]}; "
                              f"the Spec accepts the file", dict(replay_of(o), answer=a), found_input=False)
         elif not sp.startswith("ok"):
             ck.violation(f"the written file does not say what the graph handed to the writer says: {sp[:200]} (network {o['idx']} {o['profile']} "
-                         f"{o['opts']})", dict(replay_of(o), spec=sp), found_input=True)
+                         f"{o['opts']})", dict(replay_of(o), spec=sp), found_input=True, key=wkey)
     # ---- second generation: Ethos-U operators of the first output passed through verbatim -------------------------------
     vb_owners = [o for o in owners if o.get("verbatim_line")]
     for o, ans in zip(vb_owners, ck.model([o["verbatim_line"] for o in vb_owners]) if vb_owners else []):
